@@ -44,6 +44,7 @@ impl Bench {
             env_steps: 0,
             manual,
             stall_next_write: false,
+            stall_next_flush: false,
             keep_tx: true,
             last_cancel_forced: false,
             held: Vec::new(),
